@@ -5,7 +5,17 @@
 use serde::{Deserialize, Serialize};
 
 /// Glyph order of every test font; index = glyph id.
-pub const GLYPH_NAMES: [&str; 7] = [".notdef", "a", "b", "c", "d", "f_f", "acutecomb"];
+pub const GLYPH_NAMES: [&str; 9] = [
+    ".notdef",
+    "a",
+    "b",
+    "c",
+    "d",
+    "f_f",
+    "acutecomb",
+    "gravecomb",
+    "dotbelowcomb",
+];
 
 pub type Gid = u16;
 
@@ -15,13 +25,15 @@ pub const G_C: Gid = 3;
 pub const G_D: Gid = 4;
 pub const G_FF: Gid = 5;
 pub const G_ACUTE: Gid = 6;
+pub const G_GRAVE: Gid = 7;
+pub const G_DOTBELOW: Gid = 8;
 
 /// GDEF glyph class of a glyph, as written by [`Top::Gdef`]: 1 base, 2 ligature, 3 mark.
 pub fn gdef_class(g: Gid) -> u8 {
     match g {
         1..=4 => 1,
         5 => 2,
-        6 => 3,
+        6..=8 => 3,
         _ => 0,
     }
 }
@@ -44,7 +56,61 @@ pub enum Gs {
 }
 
 pub const FLAG_RIGHT_TO_LEFT: u16 = 0x0001;
+pub const FLAG_IGNORE_BASE_GLYPHS: u16 = 0x0002;
+pub const FLAG_IGNORE_LIGATURES: u16 = 0x0004;
 pub const FLAG_IGNORE_MARKS: u16 = 0x0008;
+
+/// A lookup flag with its glyph-class operands:
+/// `lookupflag [RightToLeft] [IgnoreBaseGlyphs] [IgnoreLigatures] [IgnoreMarks]
+/// [MarkAttachmentType <class>] [UseMarkFilteringSet <class>];`
+#[derive(Clone, Debug, Default, PartialEq, Eq, Hash, Serialize, Deserialize)]
+pub struct LFlag {
+    /// the four plain bits (`FLAG_*`)
+    pub bits: u16,
+    pub mark_attach: Option<Gs>,
+    pub mark_filter: Option<Gs>,
+}
+
+impl LFlag {
+    pub fn bits(bits: u16) -> Self {
+        LFlag {
+            bits,
+            mark_attach: None,
+            mark_filter: None,
+        }
+    }
+    pub fn is_plain(&self) -> bool {
+        self.mark_attach.is_none() && self.mark_filter.is_none()
+    }
+    pub fn is_zero(&self) -> bool {
+        self.bits == 0 && self.is_plain()
+    }
+    pub fn to_fea(&self) -> String {
+        if self.is_zero() {
+            return "lookupflag 0;".into();
+        }
+        let mut names: Vec<String> = vec![];
+        if self.bits & FLAG_RIGHT_TO_LEFT != 0 {
+            names.push("RightToLeft".into());
+        }
+        if self.bits & FLAG_IGNORE_BASE_GLYPHS != 0 {
+            names.push("IgnoreBaseGlyphs".into());
+        }
+        if self.bits & FLAG_IGNORE_LIGATURES != 0 {
+            names.push("IgnoreLigatures".into());
+        }
+        if self.bits & FLAG_IGNORE_MARKS != 0 {
+            names.push("IgnoreMarks".into());
+        }
+        if let Some(c) = &self.mark_attach {
+            names.push(format!("MarkAttachmentType {}", c.to_fea()));
+        }
+        if let Some(c) = &self.mark_filter {
+            names.push(format!("UseMarkFilteringSet {}", c.to_fea()));
+        }
+        format!("lookupflag {};", names.join(" "))
+    }
+}
 
 #[derive(Clone, Debug, PartialEq, Eq, Hash, Serialize, Deserialize)]
 pub enum Value {
@@ -81,6 +147,13 @@ pub enum Rule {
         ahead: Vec<Gs>,
         by: Option<Gs>,
     },
+    /// `sub back g' ahead by x y ..;` — in-line multiple substitution of the one marked glyph
+    ChainMultiple {
+        back: Vec<Gs>,
+        input: Gid,
+        ahead: Vec<Gs>,
+        to: Vec<Gid>,
+    },
     /// `ignore sub back input' ahead;`
     Ignore {
         back: Vec<Gs>,
@@ -103,6 +176,8 @@ pub enum Stmt {
     Rule(Rule),
     /// `lookupflag 0;` / `lookupflag IgnoreMarks;` / `lookupflag RightToLeft;`
     LookupFlag(u16),
+    /// `lookupflag` with `MarkAttachmentType` / `UseMarkFilteringSet` operands
+    LookupFlagEx(LFlag),
     /// `lookup NAME { ... } NAME;`
     Lookup { name: String, body: Vec<Stmt> },
     /// `lookup NAME;`
@@ -118,7 +193,8 @@ pub enum Top {
     LanguageSystem { script: String, lang: String },
     /// `@NAME = [a b];`
     ClassDef { name: String, glyphs: Vec<Gid> },
-    /// the fixed `table GDEF { GlyphClassDef [a b c d], [f_f], [acutecomb], ; } GDEF;`
+    /// the fixed `table GDEF { GlyphClassDef [a b c d], [f_f], [acutecomb gravecomb
+    /// dotbelowcomb], ; } GDEF;`
     Gdef,
     Lookup { name: String, body: Vec<Stmt> },
     Feature { tag: String, body: Vec<Stmt> },
@@ -157,17 +233,7 @@ impl Value {
 }
 
 pub fn flag_to_fea(flag: u16) -> String {
-    if flag == 0 {
-        return "lookupflag 0;".into();
-    }
-    let mut names = vec![];
-    if flag & FLAG_RIGHT_TO_LEFT != 0 {
-        names.push("RightToLeft");
-    }
-    if flag & FLAG_IGNORE_MARKS != 0 {
-        names.push("IgnoreMarks");
-    }
-    format!("lookupflag {};", names.join(" "))
+    LFlag::bits(flag).to_fea()
 }
 
 fn seq(v: &[Gs]) -> String {
@@ -210,6 +276,24 @@ impl Rule {
                 }
                 format!("{};", parts.join(" "))
             }
+            Rule::ChainMultiple {
+                back,
+                input,
+                ahead,
+                to,
+            } => {
+                let mut parts: Vec<String> = vec!["sub".into()];
+                if !back.is_empty() {
+                    parts.push(seq(back));
+                }
+                parts.push(format!("{}'", glyph_name(*input)));
+                if !ahead.is_empty() {
+                    parts.push(seq(ahead));
+                }
+                let v: Vec<&str> = to.iter().map(|g| glyph_name(*g)).collect();
+                parts.push(format!("by {}", v.join(" ")));
+                format!("{};", parts.join(" "))
+            }
             Rule::Ignore { back, input, ahead } => {
                 let mut parts: Vec<String> = vec!["ignore sub".into()];
                 if !back.is_empty() {
@@ -248,6 +332,7 @@ fn print_stmts(body: &[Stmt], indent: usize, out: &mut String) {
         match s {
             Stmt::Rule(r) => out.push_str(&format!("{pad}{}\n", r.to_fea())),
             Stmt::LookupFlag(f) => out.push_str(&format!("{pad}{}\n", flag_to_fea(*f))),
+            Stmt::LookupFlagEx(f) => out.push_str(&format!("{pad}{}\n", f.to_fea())),
             Stmt::Lookup { name, body } => {
                 out.push_str(&format!("{pad}lookup {name} {{\n"));
                 print_stmts(body, indent + 1, out);
@@ -276,7 +361,7 @@ impl Program {
                     out.push_str(&format!("@{name} = {};\n", glyph_list(glyphs)))
                 }
                 Top::Gdef => out.push_str(
-                    "table GDEF {\n    GlyphClassDef [a b c d], [f_f], [acutecomb], ;\n} GDEF;\n",
+                    "table GDEF {\n    GlyphClassDef [a b c d], [f_f], [acutecomb gravecomb dotbelowcomb], ;\n} GDEF;\n",
                 ),
                 Top::Lookup { name, body } => {
                     out.push_str(&format!("lookup {name} {{\n"));
